@@ -1071,11 +1071,14 @@ class Interp:
         for e in node.values:
             v = self.eval(e, env)
             t = self.truth(v)
+            # `x and y` / `x or y` evaluate to the deciding OPERAND, not to its truth value (`a or 5` is `a` when a != 0).
+            # A bool-sorted Sym equals its truth value on this path, so the literal is returned for it (keeps terms small);
+            # numeric / string Syms are returned themselves (engine self-test: boolop_value).
             if is_and and not t:
-                return v if not isinstance(v, Sym) else False
+                return v if not (isinstance(v, Sym) and v.is_bool) else False
             if not is_and and t:
-                return v if not isinstance(v, Sym) else True
-        return v if not isinstance(v, Sym) else (True if is_and else False)
+                return v if not (isinstance(v, Sym) and v.is_bool) else True
+        return v if not (isinstance(v, Sym) and v.is_bool) else (True if is_and else False)
 
     def e_Compare(self, node, env):
         left = self.eval(node.left, env)
